@@ -390,6 +390,15 @@ func H_C02_tmpl() {
 }
 
 var c03Templates = []diffTmpl{
+	// environments: free names resolve through the environment of the function that mentions them
+	{"local function f() return v end; setfenv(f, {v = x}); emit(f()); v = y; emit(f()); emit(getfenv(f).v, getfenv(f) == _G)", "num"},
+	{"local function mk() return function() return v end end; setfenv(mk, {v = x}); local g = mk(); v = y; emit(g()); setfenv(mk, {v = z}); emit(g(), mk()())", "num"},
+	{"local function f() setfenv(1, {emit = emit, v = x}); emit(v); w = y end; f(); emit(v, w); emit(getfenv(f).w, getfenv(f) == _G, getfenv(1) == _G, getfenv(0) == _G)", "num"},
+	{"local e = {}; local function f() w = x; return w end; emit(setfenv(f, e) == f); emit(f(), e.w, w)", "num"},
+	{"local function g() setfenv(2, {emit = emit, v = y}) end; local function f() g(); emit(v) end; f(); emit(v)", "num"},
+	{"local e = setmetatable({v = x}, {__index = _G}); local function f() emit(v, type(setfenv)); u = z end; setfenv(f, e); f(); emit(rawget(e, 'u'), u)", "num"},
+	{"local function outer() local function inner() return v end; return inner end; local e1 = {v = x}; setfenv(outer, e1); local i1 = outer(); local e2 = {v = y}; setfenv(i1, e2); local i2 = outer(); emit(i1(), i2(), getfenv(i1) == e2, getfenv(i2) == e1)", "num"},
+	{"v = z; local fs = {}; for i = 1, 2 do fs[i] = function() return v end end; setfenv(fs[1], {v = x}); emit(fs[1](), fs[2]()); emit((pcall(setfenv, fs[1], nil)), fs[1]())", "num"},
 	{"local f; do local v = x; f = function() return v end end; local function g(p, q, r) local u, w = 91, 92; return u end; g(1, 2, 3); emit(f())", "num"},
 	{"local fs = {}; for i = 1, 3 do local v = x + i; fs[i] = function() v = v + 1; return v end end; emit(fs[1](), fs[1](), fs[2](), fs[3]())", "int"},
 	{"local fs = {}; local i = 0; while i < 3 do i = i + 1; local v = i + x; fs[i] = function() return v end; if i == 2 then break end end; emit(fs[1](), fs[2](), fs[3])", "int"},
@@ -421,7 +430,7 @@ var c03Templates = []diffTmpl{
 
 // C03.tmpl — closures and captured variables on every exit path, whole pipeline against R-lua.
 //
-//verif:harness prop=C03 tier=quick bounds="27 closure templates: creation in numeric/generic for, while, repeat, do-blocks and calls; scope left by fall-through, break, goto, return, tail call, caught errors; register-reusing calls before use; inputs symbolic"
+//verif:harness prop=C03 tier=quick bounds="35 closure templates: creation in numeric/generic for, while, repeat, do-blocks and calls; scope left by fall-through, break, goto, return, tail call, caught errors; getfenv/setfenv by function and by level, inheritance of the creator's environment; register-reusing calls before use; inputs symbolic"
 func H_C03_tmpl() {
 	t := c03Templates[VChoice(len(c03Templates))]
 	diffRun(t.src, t.src, c01Inputs(t.kind), Options{})
